@@ -41,6 +41,13 @@ def check(ck):
     H.update_in_shape(ck, 'R06.8')
     H.assoc_path_shape(ck, 'R06.8')
     H.deep_merge_shape(ck, 'R06.8')
+    H.deep_merge_shape(ck, 'R06.8', 'deep_merge_multi_update')
+    from . import c09
+    ck.shared('R06.9', 'reads walk the tree through the outer links, writes '
+              'address nodes by absolute path: the two meet in the same '
+              'node only if every node that is attached somewhere gets that '
+              'parent as its outer link',
+              c09.r09_7)
 
 
 # ------------------------------------------------------------- case tables
@@ -78,6 +85,17 @@ def topo_loop(fi):
                 for nm, dl in local_defs(fi.node).items():
                     for d in dl:
                         v = d.value
+                        if isinstance(v, ast.BoolOp) and isinstance(
+                                v.op, ast.Or) and len(v.values) == 2 and \
+                                isinstance(v.values[0], ast.Call) and \
+                                A.call_name(v.values[0]) == 'get' and \
+                                A.is_name(A.call_receiver(v.values[0]),
+                                          'topology') and \
+                                d.stmt is not None and within(d.stmt, n):
+                            # path = topology.get(key) or default
+                            pathv = nm
+                            default = 'truthiness:' + A.unparse(v.values[1])
+                            continue
                         if isinstance(v, ast.Call) and A.call_name(v) == \
                                 'get' and A.is_name(
                                     A.call_receiver(v), 'topology') and \
@@ -206,6 +224,16 @@ def r06_1(ck):
     for q, d in sorted(defaults.items()):
         fi = [f for f in readers if f.qual == q][0]
         key = tables[q]['key']
+        if d is not None and d.startswith('truthiness:'):
+            ck.fail('R06.1', fi, 'absent port default in %s' % q,
+                    '%s takes the default for every falsy topology entry '
+                    '(`or`): a port wired to the empty path () - the node '
+                    'the process sits under - is built and read at (port,) '
+                    'instead, while updates still go to ()' % q,
+                    tables[q]['loop'],
+                    what='only a port that the topology omits gets the '
+                    'default path')
+            continue
         ck.require(d is not None and d.replace(' ', '') ==
                    '(%s,)' % key, 'R06.1', fi,
                    'absent port default in %s' % q,
@@ -687,24 +715,8 @@ def r06_5(ck):
                        'recursive call extends an already normalised path '
                        'by a child key', None, c)
     ck.floor('R06.5', n, 3, 'composed target paths')
-    np_ = ck.fn('normalize_path', 'library.topology')
-    cfg = cfg_of(np_.node)
-    ok = False
-    for node in cfg.stmt_nodes():
-        g = cfg.guards(node)
-        if any(a[0] == '==' and "'..'" in a[1:] for a in g):
-            st = cfg.info[node]['stmt']
-            if isinstance(st, ast.Assign) and isinstance(
-                    st.value, ast.Subscript) and isinstance(
-                    st.value.slice, ast.Slice) and A.unparse(
-                    st.value.slice.upper) == '-1':
-                ok = True
-            if isinstance(st, ast.Expr) and isinstance(
-                    st.value, ast.Call) and A.call_name(st.value) == 'pop':
-                ok = True
-    ck.require(ok, 'R06.5', np_, np_.node.name,
-               "normalize_path drops the previous step on '..'",
-               "normalize_path no longer resolves '..'")
+    from . import helpers as H3
+    H3.normalize_path_shape(ck, 'R06.5')
 
 
 def r06_6(ck):
@@ -771,20 +783,5 @@ def r06_7(ck, rule='R06.7'):
                    'process (a process that reuses its update applies the '
                    'first port again and again)' % A.unparse(x), c)
     ck.floor(rule, n, 3, 'merges of update dictionaries into the inverse')
-    dci = ck.fn('deep_copy_internal', 'library.dict_utils')
-    p0 = A.params_of(dci.node)[0]
-    ok = False
-    for r in A.walk_no_nested(dci.node):
-        if isinstance(r, ast.Return) and isinstance(r.value, ast.DictComp):
-            dc = r.value
-            g = dc.generators[0]
-            ok = A.unparse(g.iter) == p0 + '.items()' and not g.ifs and \
-                isinstance(dc.value, ast.Call) and A.call_name(
-                    dc.value) == dci.node.name and A.unparse(
-                    dc.key) == A.unparse(g.target.elts[0]) and A.unparse(
-                    A.arg_of(dc.value, 0)) == A.unparse(g.target.elts[1])
-    ck.require(ok, rule, dci, dci.node.name,
-               'deep_copy_internal copies the dictionary structure at every '
-               'depth (recursive call on every value)',
-               'deep_copy_internal no longer recurses into every value: '
-               'deeper dictionaries stay shared with the original')
+    from . import helpers as H2
+    H2.deep_copy_internal_shape(ck, rule)
